@@ -88,6 +88,22 @@ def literals(res):
             add("'\\N{%s}'" % nm.lower())
             add("b'\\N{%s}'" % nm)
             add("'x\\N{%s}\\N{%s}y'" % (nm, nm))
+    # the extremes of the name table: the longest and the shortest names, names with digits / hyphens, name aliases
+    import unicodedata as _ud
+    named = []
+    for cp in range(0x110000):
+        try:
+            named.append((_ud.name(chr(cp)), cp))
+        except ValueError:
+            pass
+    named.sort(key=lambda x: (len(x[0]), x[0]))
+    picks = named[:60] + named[-(300 if thorough else 120):] + [x for x in named if "-" in x[0] and any(c.isdigit() for c in x[0])][:: (7 if thorough else 97)]
+    if thorough:
+        picks = named   # every named code point
+    for nm, cp in picks:
+        add("'\\N{%s}'" % nm)
+    for alias in ("LF", "NUL", "NULL", "LINE FEED", "LATIN CAPITAL LETTER GHA", "BYTE ORDER MARK", "ZWNBSP", "VS17", "KEYCAP DIGIT ONE", "HANGUL SYLLABLE GAG", "CJK UNIFIED IDEOGRAPH-4E00", "CJK UNIFIED IDEOGRAPH-20000"):
+        add("'\\N{%s}'" % alias)
     for bad in ("'\\N'", "'\\N{'", "'\\N{}'", "'\\N{NOT A NAME}'", "'\\N{LATIN SMALL LETTER A'", "'\\N{latin small letter a}'", "'\\N{LF}'", "'\\N{LINE FEED}'", "'\\N{NULL}'"):
         add(bad)
     # backslash-newline and raw newlines
